@@ -29,7 +29,7 @@ pub struct Sys {
     pub full_obs: bool,
     pub rp_on: bool,
     /// a task claimed by hand (`claim` op) and not yet finished
-    pub claimed: std::sync::Mutex<Option<Box<Ident>>>,
+    pub claimed: std::sync::Mutex<Option<(Box<Ident>, String)>>,
     pub t0: i64,
     _rt: tokio::runtime::Runtime,
     #[allow(dead_code)]
@@ -326,7 +326,7 @@ impl Sys {
                 match krill.tasks().pop() {
                     Some((key, _)) => {
                         let k = key.to_string();
-                        *self.claimed.lock().unwrap() = Some(key);
+                        *self.claimed.lock().unwrap() = Some((key, self.server_digest()));
                         Ok(format!("ok:{}", k.split_once('-').map(|x| x.1).unwrap_or("?")))
                     }
                     None => Ok("ok:none".into()),
@@ -336,11 +336,17 @@ impl Sys {
             // name is pending afterwards.
             ["finishclaimed"] => {
                 let key = self.claimed.lock().unwrap().take();
-                let Some(key) = key else { return Ok("ok:nothing-claimed".into()) };
+                let Some((key, digest_at_claim)) = key else { return Ok("ok:nothing-claimed".into()) };
                 let name = key.as_str().split_once('-').map(|x| x.1.to_string()).unwrap_or_default();
                 krill.tasks().finish(&key)?;
                 let pending = self.kv_all("tasks").keys().any(|k| k.starts_with("pending/") && k.ends_with(&format!("-{name}")));
-                Ok(format!("ok:{}", if pending { "pending" } else { "not-pending" }))
+                // did anybody publish (or remove a publisher) while the task was running?
+                let changed = self.server_digest() != digest_at_claim;
+                Ok(format!("ok:{}", match (pending, changed) {
+                    (true, _) => "pending",
+                    (false, true) => "lost-followup",
+                    (false, false) => "idle",
+                }))
             }
             // drain, then make every pending task due once (tasks re-queued "later" after a
             // failure, start-up refreshes) and drain again: "background work has caught up"
@@ -537,6 +543,21 @@ impl Sys {
             }
         }
         out
+    }
+
+    /// A digest of what the publication server holds for every publisher, staged changes
+    /// included (the list replies).
+    pub fn server_digest(&self) -> String {
+        let rm = self.krill.repo_manager();
+        let mut parts = vec![];
+        let mut ps = rm.publishers().unwrap_or_default();
+        ps.sort_by_key(|p| p.to_string());
+        for p in ps {
+            let mut l: Vec<String> = rm.list(&p).map(|r| r.elements().iter().map(|e| format!("{}={}", e.uri(), e.hash())).collect()).unwrap_or_default();
+            l.sort();
+            parts.push(format!("{p}:{}", l.join(",")));
+        }
+        parts.join(";")
     }
 
     pub fn repo_objects(&self) -> BTreeMap<String, BTreeMap<String, Vec<u8>>> {
